@@ -84,6 +84,16 @@ func signedRejects03() []signedReject03 {
 				w.Qe.Levels[i].Status = "OutOfDate"
 			}
 		}},
+		{"qe-level-status-omitted", "qe", func(w *world.World) {
+			for i := range w.Qe.Levels {
+				w.Qe.Levels[i].NoStatus = true
+			}
+		}},
+		{"tcb-level-status-omitted", "tcb", func(w *world.World) {
+			for i := range w.Tcb.Levels {
+				w.Tcb.Levels[i].NoStatus = true
+			}
+		}},
 		{"qe-wrong-mrsigner", "qe", func(w *world.World) { w.Qe.MrSigner = strings.Repeat("cd", 32) }},
 		{"qe-expired", "qe", func(w *world.World) { w.Qe.NextUpdate = world.Epoch.Add(-400 * world.Day) }},
 		{"qe-wrong-isvprodid", "qe", func(w *world.World) { w.Qe.IsvProdID = fmt.Sprint((int(w.P.QeIsvProdID) + 1) % 65536) }},
@@ -366,6 +376,22 @@ func c03(x *mon.Ctx) {
 				fr := world.Issue(world.RootTemplate(wv.w), nil, world.NewKey())
 				resigned("signer-under-foreign-root-"+wv.name, world.Issue(world.TcbSignTemplate(world.Far), fr, world.NewKey()), fr, "reject")
 				resigned("signer-genuine-but-"+wv.name, world.Issue(world.TcbSignTemplate(wv.w), base.PKI.Root, world.NewKey()), base.PKI.Root, "reject")
+			}
+			{ // a foreign signer that an EARLIER verification legitimately trusted (that caller's pool held the foreign root too):
+				// what one pool vouches for says nothing under another pool
+				wb := base.Clone()
+				d.set(wb, world.SignedBody(d.member, raw, other.TcbSign.Key), map[string][]string{d.hdr: {world.IssuerChain(other.TcbSign, other.Root)}})
+				wb.Roots = certs(base.PKI.Root, other.Root)
+				exp := "accept"
+				if lvl == world.LCrl {
+					exp = "" // with revocation on, the Root CA CRL is checked against the foreign chain's root and (rightly) fails
+				}
+				add(wb, d.name+"-control-foreign-signer-under-a-pool-that-lists-its-root", "", exp)
+				ctl := cases[len(cases)-1]
+				wo := wb.Clone()
+				wo.Roots = certs(base.PKI.Root)
+				add(wo, d.name+"-foreign-signer-trusted-by-an-earlier-pool-only", "", "reject")
+				cases[len(cases)-1].TwinRef = ctl
 			}
 			resigned("signer-foreign-root-own", other.TcbSign, base.PKI.Root, "reject")
 			resigned("signer-own-root-foreign", base.PKI.TcbSign, other.Root, "reject")
